@@ -355,6 +355,32 @@ func c04Seeds() (jsonSeeds, gobSeeds [][]byte) {
 			}
 		}
 	}
+	// valid values whose numbers are as large (or as odd) as their types allow, next to a list that holds one member: a reader that
+	// sizes anything by a number it has read is handed the largest there is
+	one := ap.ItemCollection{ap.IRI("https://example.com/only-member")}
+	for _, n := range []uint{1 << 31, 1 << 40, 1<<63 - 1, ^uint(0)} {
+		for _, x := range []ap.Item{
+			&ap.OrderedCollection{ID: "https://example.com/big", Type: ap.OrderedCollectionType, TotalItems: n, OrderedItems: one},
+			&ap.Collection{ID: "https://example.com/big", Type: ap.CollectionType, TotalItems: n, Items: one},
+			&ap.OrderedCollectionPage{ID: "https://example.com/big", Type: ap.OrderedCollectionPageType, TotalItems: n, StartIndex: n, OrderedItems: one},
+			&ap.CollectionPage{ID: "https://example.com/big", Type: ap.CollectionPageType, TotalItems: n, Items: one},
+			&ap.Link{ID: "https://example.com/big", Type: ap.LinkType, Href: "https://example.com/h", Height: n, Width: n},
+			&ap.Place{ID: "https://example.com/big", Type: ap.PlaceType, Radius: int64(n >> 1), Altitude: float64(n), Latitude: -float64(n), Accuracy: 1e308},
+			&ap.Object{ID: "https://example.com/big", Type: ap.VideoType, Duration: time.Duration(n >> 1), Replies: &ap.OrderedCollection{Type: ap.OrderedCollectionType, TotalItems: n, OrderedItems: one}},
+		} {
+			if b, err := ap.MarshalJSON(x); err == nil && len(b) > 0 {
+				jsonSeeds = append(jsonSeeds, b)
+			}
+			if b, err := ap.GobEncode(x); err == nil && len(b) > 0 {
+				gobSeeds = append(gobSeeds, b)
+			}
+			if m, ok := x.(gob.GobEncoder); ok {
+				if b, err := m.GobEncode(); err == nil && len(b) > 0 {
+					gobSeeds = append(gobSeeds, b)
+				}
+			}
+		}
+	}
 	for _, v := range []interface{}{ap.IRIs{"https://example.com/a", "https://example.com/b"}, ap.NaturalLanguageValues{{Ref: "en", Value: ap.Content("x")}, {Ref: "fr", Value: ap.Content("y")}},
 		ap.ItemCollection{ap.IRI("https://example.com/a"), &ap.Object{ID: "https://example.com/o", Type: ap.NoteType}}, ap.Source{MediaType: "a/b", Content: ap.DefaultNaturalLanguageValue("c")},
 		ap.PublicKey{ID: "https://example.com/k", PublicKeyPem: "pem"}, ap.LangRefValue{Ref: "en", Value: ap.Content("v")}, ap.Content("text"), ap.LangRef("en"), ap.MimeType("a/b")} {
